@@ -315,3 +315,159 @@ Print Assumptions C16_extract_after_save_load.
 Print Assumptions C16_extract_blocks_after_save_load.
 Print Assumptions C16_extract_same_after_save_load.
 Print Assumptions C16_example_after_save_load.
+
+(* ------------------------------------------------------------------------------------------
+   (3'') the two parameters of (3') instantiated, and Document::compress() before the save.
+   (a) [decode] := C14's model of Content::decode ([content_decode] = Model/Parser.v [decode_content] on pairs
+       (operator, operands); [content_encode] = Model/Writer.v [encode_content], i.e. Content::encode).  By C14_rt the
+       text-showing operations of (3), WRITTEN with Content::encode, decode to themselves (the font size in normal
+       form), so the theorems start from the operations the user wrote: [page_written decomp fuel objects pid fname font
+       ops] = get_page_fonts returns exactly that font and get_page_content returns Content::encode of [ops].
+       Domain: [operand_dom size] (the size operand is a direct object C14 round-trips: i64 / finite real / ..., not a
+       reference, nested at most MAX_NESTING) and [piece_i64] (a TJ adjustment is an Object::Integer, an i64).
+   (b) [decomp] := [stream_decomp inflate lzw] = C09's model of Stream::decompressed_content around a zlib decoder and
+       an LZW decoder, and [compress_doc deflate nocomp d] = Document::compress (C09's [doc_compress]: every stream that
+       allows compression and gets more than COMPRESS_SLACK bytes shorter is Flate-compressed).  Assumptions about
+       third-party code, stated as in C09: [implements_inflate inflate] (absent in the [gallina] instance, where lopdf's
+       filter code runs on the RFC 1950/1951 decoder of Spec/Inflate.v) and [compressible deflate objects]: for every stream
+       object, distinct dictionary keys (IndexMap) and [valid_zlib_output deflate content] (flate2's compressor writes a
+       zlib stream for its input).
+       C01's domain ([savable], [known_deep], [small_file], [unreferenced], [content_normal]) is asked of the document
+       that is SAVED, i.e. of the compressed document [compress_doc deflate nocomp d].
+   ------------------------------------------------------------------------------------------ *)
+From LV Require Spec.StreamCodecSpec Proofs.ObjectRtProofs Proofs.ComposeTextDecode Proofs.ComposeTextCompress.
+Section DecodeAndCompress.
+  Import Model.Save Model.Xref Model.Loader Spec.SaveSpec Proofs.ComposeReload Proofs.ComposeText.
+  Import Spec.StreamCodecSpec Proofs.ObjectRtProofs Proofs.ComposeTextDecode Proofs.ComposeTextCompress.
+
+  (* Content::decode (Content::encode ops) = ops for the operations that show text (instance of C14_rt) *)
+  Theorem C16_decode_written_ops :
+    forall fname size t ps, operand_dom size -> Forall piece_i64 ps ->
+      content_decode (content_encode (show_ops fname size t ps)) = Some (show_ops fname (norm_obj size) t ps).
+  Proof. exact decode_show_ops. Qed.
+
+  Theorem C16_decode_written_blocks :
+    forall inside fname size t bss, operand_dom size -> Forall (Forall piece_i64) bss ->
+      content_decode (content_encode (blocks_ops inside fname size t bss)) = Some (blocks_ops inside fname (norm_obj size) t bss).
+  Proof. exact decode_blocks_ops. Qed.
+
+  (* (a) from the operations written, with the real Content::decode; any stream decoder *)
+  Theorem C16_extract_written_after_save_load :
+    forall decomp xt d fuel pid font t fname size ps,
+      savable d -> known_deep d = false -> small_file xt d -> unreferenced xt d ->
+      content_normal fuel (d_objects d) pid ->
+      page_written decomp fuel (d_objects d) pid fname font (show_ops fname size t ps) ->
+      operand_dom size -> Forall piece_i64 ps ->
+      get_font_encoding font = Ok (EncOneByte t) ->
+      Forall (piece_over (in_repertoire t)) ps ->
+      exists d' p',
+        load (so_bytes (save xt d)) = LOk d' (xtype_of xt) /\
+        doc_page decomp content_decode fuel (d_objects d') pid = Some p' /\
+        extract_text [p'] [1] = Ok (shown_text ps).
+  Proof. exact extract_written_after_save_load. Qed.
+
+  Theorem C16_extract_written_blocks_after_save_load :
+    forall decomp xt d fuel pid font t inside fname size bss,
+      savable d -> known_deep d = false -> small_file xt d -> unreferenced xt d ->
+      content_normal fuel (d_objects d) pid ->
+      page_written decomp fuel (d_objects d) pid fname font (blocks_ops inside fname size t bss) ->
+      operand_dom size -> Forall (Forall piece_i64) bss ->
+      get_font_encoding font = Ok (EncOneByte t) ->
+      Forall (Forall (piece_over (in_repertoire t))) bss -> Forall block_shows bss ->
+      exists d' p',
+        load (so_bytes (save xt d)) = LOk d' (xtype_of xt) /\
+        doc_page decomp content_decode fuel (d_objects d') pid = Some p' /\
+        extract_text [p'] [1] = Ok (shown_blocks bss).
+  Proof. exact extract_written_blocks_after_save_load. Qed.
+
+  (* the page view does not change under Document::compress: same fonts, same content bytes *)
+  Theorem C16_page_unchanged_by_compress :
+    forall inflate lzw deflate, implements_inflate inflate ->
+    forall nocomp m fuel pid,
+      compressible deflate m ->
+      Query.get_page_content (stream_decomp inflate lzw) fuel (StreamFilt.doc_compress deflate nocomp m) pid
+        = Query.get_page_content (stream_decomp inflate lzw) fuel m pid /\
+      Query.get_page_fonts fuel (StreamFilt.doc_compress deflate nocomp m) pid = Query.get_page_fonts fuel m pid.
+  Proof. exact page_content_compress. Qed.
+
+  (* (a) + (b): written operations -> Document::compress -> save -> load -> extract_text *)
+  Theorem C16_extract_after_compress_save_load :
+    forall inflate lzw deflate, implements_inflate inflate ->
+    forall nocomp xt d fuel pid font t fname size ps,
+      let dc := compress_doc deflate nocomp d in
+      savable dc -> known_deep dc = false -> small_file xt dc -> unreferenced xt dc ->
+      content_normal fuel (d_objects dc) pid ->
+      compressible deflate (d_objects d) ->
+      page_written (stream_decomp inflate lzw) fuel (d_objects d) pid fname font (show_ops fname size t ps) ->
+      operand_dom size -> Forall piece_i64 ps ->
+      get_font_encoding font = Ok (EncOneByte t) ->
+      Forall (piece_over (in_repertoire t)) ps ->
+      exists d' p',
+        load (so_bytes (save xt dc)) = LOk d' (xtype_of xt) /\
+        doc_page (stream_decomp inflate lzw) content_decode fuel (d_objects d') pid = Some p' /\
+        extract_text [p'] [1] = Ok (shown_text ps).
+  Proof. exact extract_written_after_compress_save_load. Qed.
+
+  Theorem C16_extract_blocks_after_compress_save_load :
+    forall inflate lzw deflate, implements_inflate inflate ->
+    forall nocomp xt d fuel pid font t inside fname size bss,
+      let dc := compress_doc deflate nocomp d in
+      savable dc -> known_deep dc = false -> small_file xt dc -> unreferenced xt dc ->
+      content_normal fuel (d_objects dc) pid ->
+      compressible deflate (d_objects d) ->
+      page_written (stream_decomp inflate lzw) fuel (d_objects d) pid fname font (blocks_ops inside fname size t bss) ->
+      operand_dom size -> Forall (Forall piece_i64) bss ->
+      get_font_encoding font = Ok (EncOneByte t) ->
+      Forall (Forall (piece_over (in_repertoire t))) bss -> Forall block_shows bss ->
+      exists d' p',
+        load (so_bytes (save xt dc)) = LOk d' (xtype_of xt) /\
+        doc_page (stream_decomp inflate lzw) content_decode fuel (d_objects d') pid = Some p' /\
+        extract_text [p'] [1] = Ok (shown_blocks bss).
+  Proof. exact extract_written_blocks_after_compress_save_load. Qed.
+
+  (* lopdf's filter code on the Gallina decoders: the only assumption about third-party code left is the compressor's *)
+  Theorem C16_extract_after_compress_save_load_gallina :
+    forall deflate nocomp xt d fuel pid font t fname size ps,
+      let dc := compress_doc deflate nocomp d in
+      savable dc -> known_deep dc = false -> small_file xt dc -> unreferenced xt dc ->
+      content_normal fuel (d_objects dc) pid ->
+      compressible deflate (d_objects d) ->
+      page_written (stream_decomp gallina_inflate gallina_lzw) fuel (d_objects d) pid fname font (show_ops fname size t ps) ->
+      operand_dom size -> Forall piece_i64 ps ->
+      get_font_encoding font = Ok (EncOneByte t) ->
+      Forall (piece_over (in_repertoire t)) ps ->
+      exists d' p',
+        load (so_bytes (save xt dc)) = LOk d' (xtype_of xt) /\
+        doc_page (stream_decomp gallina_inflate gallina_lzw) content_decode fuel (d_objects d') pid = Some p' /\
+        extract_text [p'] [1] = Ok (shown_text ps).
+  Proof.
+    intro deflate. exact (extract_written_after_compress_save_load gallina_inflate gallina_lzw deflate FilterProofsCodec.gallina_inflate_implements).
+  Qed.
+
+  (* ANY pages, ANY Content::decode: Document::compress + save + load changes no extracted chunk and no extracted text
+     (the harness verdict "after compress + save and reload" for arbitrary operation lists) *)
+  Theorem C16_extract_same_after_compress_save_load :
+    forall inflate lzw deflate, implements_inflate inflate ->
+    forall decode nocomp xt d fuel pids pages nums,
+      let dc := compress_doc deflate nocomp d in
+      savable dc -> known_deep dc = false -> small_file xt dc -> unreferenced xt dc ->
+      Forall (fun pid => lookup (d_objects dc) pid <> None /\ content_normal fuel (d_objects dc) pid) pids ->
+      compressible deflate (d_objects d) ->
+      Forall2 (fun pid p => doc_page (stream_decomp inflate lzw) decode fuel (d_objects d) pid = Some p) pids pages ->
+      exists d' pages',
+        load (so_bytes (save xt dc)) = LOk d' (xtype_of xt) /\
+        Forall2 (fun pid p => doc_page (stream_decomp inflate lzw) decode fuel (d_objects d') pid = Some p) pids pages' /\
+        extract_text_chunks pages' nums = extract_text_chunks pages nums /\
+        extract_text pages' nums = extract_text pages nums.
+  Proof. exact extract_same_after_compress_save_load. Qed.
+End DecodeAndCompress.
+
+Print Assumptions C16_decode_written_ops.
+Print Assumptions C16_decode_written_blocks.
+Print Assumptions C16_extract_written_after_save_load.
+Print Assumptions C16_extract_written_blocks_after_save_load.
+Print Assumptions C16_page_unchanged_by_compress.
+Print Assumptions C16_extract_after_compress_save_load.
+Print Assumptions C16_extract_blocks_after_compress_save_load.
+Print Assumptions C16_extract_after_compress_save_load_gallina.
+Print Assumptions C16_extract_same_after_compress_save_load.
